@@ -1,15 +1,17 @@
 (* C06 — property theorems only. *)
 From C06 Require Import Model Spec Proofs.
 
-(* (1) A function that is not destructive never changes any list other than the variable it is stored
-   into: every state, every operation of the class, no guard (w only has to be a well-formed variable). *)
+(* (1) A function that is not destructive (list, cons, list*, cdr, nthcdr, member, last, butlast, subseq, copy-list,
+   reverse, append, add, push, pop, remove/delete, mapcar, nconc as repaired) never changes any list other than
+   the variable it is stored into: every state, every operation of the class, no guard (w only has to be a
+   well-formed variable). *)
 Theorem C06_nondestructive_frame : forall st o cap w,
   nondestructive o = true -> w <> dst_of o -> wf_var st w -> vcontents (step st o cap) w = vcontents st w.
 Proof. exact nondestructive_frame. Qed.
 Print Assumptions C06_nondestructive_frame.
 
-(* (2) A destructive operation on v leaves alone every variable whose slice is on another backing array:
-   every state, no guard. *)
+(* (2) A destructive operation on v ((setf car/nth/elt), rplaca, rplacd, nreverse, sort) leaves alone every
+   variable whose slice is on another backing array: every state, no guard. *)
 Theorem C06_destructive_frame : forall st o cap v s w t,
   destructive_on o = Some v -> getv st v = Some s -> w <> dst_of o -> getv st w = Some t ->
   (s_len t = 0 \/ s_arr t < length (hp st)) -> s_arr t <> s_arr s ->
@@ -18,20 +20,22 @@ Proof. exact destructive_frame. Qed.
 Print Assumptions C06_destructive_frame.
 
 (* (3) The invariant "all live slices on one backing array end at the same cell" (they are tails of one
-   another, exactly like conses sharing a tail) holds initially, is preserved by every guarded operation
-   for every capacity the runtime may choose, hence holds after every guarded history. *)
+   another, exactly like conses sharing a tail) holds initially, is preserved by every modelled operation
+   except rplacd for every capacity the runtime may choose and whatever the state is, hence holds after
+   every history of modelled operations that contains no rplacd (inv_ops is a condition on the operations
+   only: destination variable in range, not rplacd). *)
 Theorem C06_invariant_step : forall nv st o cap,
-  Inv nv st -> op_vars_ok nv o -> g_step nv st o = true -> Inv nv (step st o cap).
+  Inv nv st -> op_vars_ok nv o -> g_inv o = true -> Inv nv (step st o cap).
 Proof. exact inv_step. Qed.
 Print Assumptions C06_invariant_step.
-Theorem C06_invariant_history : forall nv ops st, Inv nv st -> guard_ops nv st ops = true -> Inv nv (run_ops st ops).
+Theorem C06_invariant_history : forall nv ops st, Inv nv st -> inv_ops nv ops = true -> Inv nv (run_ops st ops).
 Proof. exact inv_history. Qed.
 Print Assumptions C06_invariant_history.
 Theorem C06_invariant_init : forall nv, Inv nv (init nv).
 Proof. exact Inv_init. Qed.
 Print Assumptions C06_invariant_init.
 
-(* (4) Hence: after any guarded history, modifying or destructively processing a list changes another
+(* (4) Hence: after any such history, modifying or destructively processing a list changes another
    variable only if that variable is a tail of it (or it of the variable): same array, same end. *)
 Theorem C06_only_tails_change : forall nv st o cap v s w t,
   Inv nv st -> destructive_on o = Some v -> getv st v = Some s -> w <> dst_of o -> live st w = Some t ->
@@ -40,26 +44,16 @@ Theorem C06_only_tails_change : forall nv st o cap v s w t,
 Proof. exact destructive_changes_only_tails. Qed.
 Print Assumptions C06_only_tails_change.
 
-(* (5) consing, pushing, copying (and butlast) return a list on a backing array no other variable is on *)
+(* (5) list, consing, pushing, copying, butlast, append, add, remove/delete, mapcar return a list on a backing
+   array no other variable is on *)
 Theorem C06_fresh_result_alone : forall nv st o cap w t r,
   Inv nv st -> fresh_op o = true -> dst_of o < nv -> w <> dst_of o ->
   live (step st o cap) (dst_of o) = Some r -> live (step st o cap) w = Some t -> s_arr t <> s_arr r.
 Proof. exact fresh_result_alone. Qed.
 Print Assumptions C06_fresh_result_alone.
 
-(* (6) outside the guard the faithful model breaks the frame rules: known findings *)
-Theorem C06_add_overwrites_refuted :
-  vcontents (run_ops (init 4) w_add_overwrites) 2 = [1; 2; 3; 4; 6]%Z /\
-  judge_m 4 (init 4) (cinit 4) w_add_overwrites = false /\ guard_ops 4 (init 4) w_add_overwrites = false.
-Proof. exact add_overwrites_refuted. Qed.
-Print Assumptions C06_add_overwrites_refuted.
-Theorem C06_subseq_shares_refuted :
-  vcontents (run_ops (init 4) w_subseq_shares) 0 = [1; 7; 3]%Z /\
-  judge_m 4 (init 4) (cinit 4) w_subseq_shares = false /\ guard_ops 4 (init 4) w_subseq_shares = false.
-Proof. exact subseq_shares_refuted. Qed.
-Print Assumptions C06_subseq_shares_refuted.
-
-(* (7) the guard admits a history with tail sharing, destructive updates, an in-place add, nconc, nreverse, sort *)
+(* (7) the guard admits a history with tail sharing, destructive updates, add, nconc, nreverse, sort, and on it
+   the slice model and the cons-cell reference agree on the contents of every variable after every step *)
 Theorem C06_guard_nonvacuous :
   guard_ops 4 (init 4) ex_guarded = true /\ judge_m 4 (init 4) (cinit 4) ex_guarded = true /\
   map (vcontents (run_ops (init 4) ex_guarded)) [0; 1; 2; 3] =
